@@ -4,6 +4,7 @@ import (
 	"fmt"
 	"math/big"
 	"os"
+	"regexp"
 	"sort"
 	"strings"
 	"sync"
@@ -58,10 +59,30 @@ type Config struct {
 	TraceFuncs  bool
 	Concrete    map[string]*big.Int // when non-nil: concrete replay of one valuation
 	DebugAborts bool
+	Known       []KnownPattern // violations matching these do not count towards StopOnViol
+	MaxSeconds  int  // wall-clock budget; exceeding it ends exploration as not exhausted
+	Progress    bool // print progress lines to stderr
 }
 
 func DefaultConfig() Config {
 	return Config{Solver: Z3, TimeoutMs: 10000, Unwind: 64, Depth: 200, MaxSteps: 20_000_000, KConc: 16, MaxPaths: 2_000_000, Workers: 8, Validate: 8, StopOnViol: 8}
+}
+
+// KnownPattern identifies a recorded finding: assertion id + selector regexp.
+type KnownPattern struct {
+	Harness string
+	Assert  string
+	Re      *regexp.Regexp
+}
+
+func (k KnownPattern) matches(v Violation) bool {
+	if k.Harness != "" && k.Harness != v.Harness {
+		return false
+	}
+	if k.Assert != "" && k.Assert != v.AssertID {
+		return false
+	}
+	return k.Re == nil || k.Re.MatchString(v.Choices)
 }
 
 // Violation is one failed assertion with a model.
@@ -73,6 +94,7 @@ type Violation struct {
 	Valuation map[string]string `json:"valuation"` // var -> hex
 	Choices   string            `json:"choices"`   // selector assignment summary
 	Signature string            `json:"signature"`
+	Known     bool              `json:"matches_known_finding,omitempty"`
 }
 
 // ValidationCase is a path model with the observations the engine predicts.
@@ -115,6 +137,7 @@ type Result struct {
 	AssertsUnknown   int            `json:"asserts_unknown"`
 	Unknown          int            `json:"unknown_feasibility"`
 	Violations       []Violation    `json:"violations"`
+	KnownHits        int            `json:"violations_matching_known_findings"`
 	Reach            map[string]int `json:"reach"`
 	Funcs            []string       `json:"functions_encoded"`
 	Intrinsics       []string       `json:"intrinsics_used"`
@@ -142,10 +165,12 @@ type explorer struct {
 	sigSeen map[string]bool
 	vacSeen map[string]bool
 	nVal    int
+	newViol int
+	knownCount map[int]int
 }
 
 func newExplorer(cfg Config, name string) *explorer {
-	e := &explorer{cfg: cfg, res: &Result{Harness: name, Aborts: map[string]int{}, Reach: map[string]int{}}, funcs: map[string]bool{}, intr: map[string]bool{}, sigSeen: map[string]bool{}, vacSeen: map[string]bool{}}
+	e := &explorer{cfg: cfg, res: &Result{Harness: name, Aborts: map[string]int{}, Reach: map[string]int{}}, funcs: map[string]bool{}, intr: map[string]bool{}, sigSeen: map[string]bool{}, vacSeen: map[string]bool{}, knownCount: map[int]int{}}
 	e.cond = sync.NewCond(&e.mu)
 	e.work = [][]rec{{}}
 	return e
@@ -829,10 +854,25 @@ func (e *explorer) merge(cx *pathCtx, outcome string, completed bool) {
 	for _, v := range cx.viol {
 		if !e.sigSeen[v.Signature] {
 			e.sigSeen[v.Signature] = true
+			for ki, k := range e.cfg.Known {
+				if k.matches(v) {
+					v.Known = true
+					e.knownCount[ki]++
+					break
+				}
+			}
+			if v.Known {
+				r.KnownHits++
+				if r.KnownHits <= 6 {
+					r.Violations = append(r.Violations, v) // a few samples for replay
+				}
+				continue
+			}
+			e.newViol++
 			r.Violations = append(r.Violations, v)
 		}
 	}
-	if e.cfg.StopOnViol > 0 && len(r.Violations) >= e.cfg.StopOnViol {
+	if e.cfg.StopOnViol > 0 && e.newViol >= e.cfg.StopOnViol {
 		e.stop = true
 		e.cond.Broadcast()
 	}
@@ -898,7 +938,7 @@ func (e *explorer) finish(t0 time.Time, solvers []*Solver) *Result {
 	}
 	sort.Strings(r.Intrinsics)
 	r.Exhausted = !e.stop && len(e.work) == 0
-	if len(r.Violations) > 0 && e.stop {
+	if e.newViol > 0 && e.stop {
 		// stopped early because of violations: exploration is not exhaustive
 		r.Exhausted = false
 	}
